@@ -248,6 +248,25 @@ impl Model for M {
                 }
             }
         }
+        // (d) an EMPTY document fed a full save and everything written after it, in every order
+        // (the pieces that arrive before the save they depend on are held and must not be lost)
+        for (k, first) in s.pieces.iter().enumerate() {
+            if first.kind != "save" {
+                continue;
+            }
+            let from: Vec<&Piece> = s.pieces[k..].iter().collect();
+            if from.len() < 2 || from.len() > 4 {
+                continue;
+            }
+            for p in permutations(from.len()) {
+                let mut d = Automerge::new().with_actor(actor(0x34));
+                for &i in p.iter() {
+                    d.load_incremental(&from[i].bytes)
+                        .map_err(|e| Violation::new("pieces-load", "load_incremental-into-empty", format!("{:?} (from save {} order {:?})", e, k, p)))?;
+                }
+                equal_docs(&d, &last.snap, "pieces==writer", "empty-reader-any-order").map_err(|v| v.with_case(serde_json::json!({"from_save": k, "order": p})))?;
+            }
+        }
         Ok(())
     }
 
@@ -290,7 +309,7 @@ pub fn run(args: &Args) -> i32 {
     };
     let ex = run_models(&rep, args, models(args.thorough()), &lim).unwrap_or(false);
     rep.finish(
-        "explicit-state BFS over a writer (AutoCommit, edits left uncommitted so the save calls must close the transaction) and a peer feeding concurrent changes; actions: edit (4 ops), peer edit, merge peer, save, save_incremental, save_after(heads of any earlier piece); in every state: every save concatenated with everything written after it loads (load, and load_incremental into an empty document) to the writer's document as of the last piece (reads + op columns); a copy of the writer as of piece k fed the later pieces through load_incremental in EVERY order equals it too; feeding the same pieces a second time changes neither reads nor save bytes",
+        "explicit-state BFS over a writer (AutoCommit, edits left uncommitted so the save calls must close the transaction) and a peer feeding concurrent changes; actions: edit (4 ops), peer edit, merge peer, save, save_incremental, save_after(heads of any earlier piece); in every state: every save concatenated with everything written after it loads (load, and load_incremental into an empty document) to the writer's document as of the last piece (reads + op columns); a copy of the writer as of piece k fed the later pieces through load_incremental in EVERY order equals it too; feeding the same pieces a second time changes neither reads nor save bytes; an EMPTY document fed a full save and every later piece in EVERY order (<= 4 pieces) equals the writer too",
         &["budgets: edits<=2(3), peer edits<=1, pieces<=3(4)"],
         ex,
     )
